@@ -1,5 +1,5 @@
 // C06/C07 link: a history of in-memory API calls on an archive of either format, then serialize -> from_bytes.
-//   txth <U|S> <L|B> (S L<key> L<msg> | D L<key> | T L<title> | H L<key> | G L<key>)*      strings = Unicode scalar values
+//   txth <U|S> <L|B> (S L<key> L<msg> | D L<key> | T L<title> | H L<key> | G L<key> | R)*      strings = Unicode scalar values; R = save and load again
 // Output:  ser=ok:B<image> | parse=ok d<dirty> T=L<title> [L<key>=L<msg> ...]
 use crate::h_txt::*;
 use crate::h_util::*;
@@ -31,6 +31,19 @@ pub fn run(toks: &[&str]) -> String {
             "G" => {
                 let _ = t.get_message(&str_of_l(toks[i + 1]));
                 i += 2;
+            }
+            // reload: the archive is saved and loaded again in the middle of the history (serialize -> from_bytes); by the
+            // round trip this changes nothing but the dirty flag, so the model treats it as a no-op
+            "R" => {
+                let b = match t.serialize() {
+                    Ok(b) => b,
+                    Err(e) => return format!("ser={}", terr(&e)),
+                };
+                t = match TextArchive::from_bytes(&b, fmt, endian) {
+                    Ok(p) => p,
+                    Err(e) => return format!("reload={}", terr(&e)),
+                };
+                i += 1;
             }
             x => panic!("txth: bad token {}", x),
         }
